@@ -32,6 +32,9 @@ type Prog struct {
 }
 
 // Load type-checks /repo's current working tree and builds SSA for the whole program.
+// globalProg: the program under analysis (for helpers that need a whole-module scan).
+var globalProg *Prog
+
 func Load(repo string, tests bool, goarch string) (*Prog, error) {
 	env := append(os.Environ(), "GOFLAGS=-mod=mod", "GOPROXY=off", "GOSUMDB=off", "GOTOOLCHAIN=local", "GOWORK=off")
 	if goarch != "" {
@@ -93,6 +96,7 @@ func Load(repo string, tests bool, goarch string) (*Prog, error) {
 		P.SSAPkg[p.PkgPath] = ssapkgs[i]
 		P.PkgByID[p.PkgPath] = p
 	}
+	globalProg = P
 	return P, nil
 }
 
